@@ -97,6 +97,33 @@ func RunCase(t *testing.T, c *Case, keepTrace bool) *Result {
 	// math/rand's global source (used by the back-off jitter of cenkalti/backoff) is
 	// re-seeded per run; needs GODEBUG=randseednop=0 with this Go release
 	mrand.Seed(int64(c.Seed) + 1) //nolint:staticcheck
+	var stopCapture func() string
+	if raceBuild {
+		stopCapture = captureStderr()
+	}
+	defer func() {
+		if stopCapture == nil {
+			return
+		}
+		// C34: every report of the race detector whose two accesses are made by core code
+		for _, r := range parseRaces(stopCapture()) {
+			res.Probes["race_reports"]++
+			if !inCore(r.A) || !inCore(r.B) {
+				res.Probes["race_reports_outside_core"]++
+				if debugOn {
+					fmt.Fprintf(os.Stdout, "NON-CORE RACE %s | %s\n%s\n", r.A, r.B, r.Text)
+				}
+				continue
+			}
+			if c.Property == "C34" {
+				text := r.Text
+				if len(text) > 6000 {
+					text = text[:6000] + "\n..."
+				}
+				res.Violations = append(res.Violations, Violation{Property: "C34", Rule: "data-race", Sig: r.A + " | " + r.B, Detail: text})
+			}
+		}
+	}()
 	func() {
 		defer func() {
 			if p := recover(); p != nil {
